@@ -255,9 +255,6 @@ GProbes == (Part = "glob" /\ s.pc = "ap" /\ s.out = {} /\ s.c.o = MetaOpts) =>
               /\ (GProbesApP(s.c.t, ImplProbes(s.c.t)) \/ DevProbesNidq(s.c.t, ImplProbes(s.c.t)))
               /\ GVersionP(s.c.t, ImplVersionFolder(s.c.t))
 GProbesLabels == (GDone /\ s.c.o = MetaOpts) => GProbesP(ImplProbes(s.c.t), s.out)
-\* the results are the ones the exported table promises (ties the state machine to the pure functions that are exported)
-GAllowed == GDone => \A e \in s.out : \E x \in ApDrivers(s.c.t, s.c.o) \cup NidqDrivers(s.c.t, s.c.o) :
-                          e \in ApEntries(s.c.t, s.c.o, x[1], x[2]) \cup NidqEntries(s.c.t, s.c.o, x[1], x[2])
 \* vacuity control: each deviation class and each branch must be reachable in the box (checked as invariants expected to FAIL)
 ReachNoDevRecursive == GDone => GRecursiveP(s.c.o, s.out)
 ReachNoDevNidqNone == GDone => GExistsP(s.c.t, s.c.o, s.out)
